@@ -446,7 +446,85 @@ fn standalone<G: Gate<F, D>>(case: &Case, rep: &mut Report, mk: &dyn Fn() -> G, 
     rep.sample(json!({"mode": "gate", "gate": case.gate, "id": id, "wires": nwires, "constraints": gref.0.num_constraints(), "degree": gref.0.degree()}));
 }
 
+/// Evaluator lock-step over another extension degree (the gates are generic in D; Goldilocks also has a quartic and a
+/// quintic extension): the extension evaluator returns exactly `num_constraints()` values and the base-batch evaluator
+/// agrees with it on base-field rows.
+fn lockstep_other_degree<const DD: usize, G: Gate<F, DD>>(g: &G, r: &mut Rng) -> Result<(), String>
+where
+    F: Extendable<DD>,
+{
+    use plonky2::field::extension::FieldExtension;
+    type E<const N: usize> = <F as Extendable<N>>::Extension;
+    let (nw, ncst, nc) = (g.num_wires(), g.num_constants(), g.num_constraints());
+    let pih = HashOut { elements: [F::from_canonical_u64(r.felt()), F::from_canonical_u64(r.felt()), F::from_canonical_u64(r.felt()), F::from_canonical_u64(r.felt())] };
+    for bs in [1usize, 5] {
+        let rows: Vec<Vec<F>> = (0..bs).map(|_| (0..nw).map(|_| F::from_canonical_u64(r.felt_biased())).collect()).collect();
+        let consts: Vec<F> = (0..ncst).map(|_| F::from_canonical_u64(r.felt_biased())).collect();
+        let mut wb = vec![F::ZERO; nw * bs];
+        let mut cb = vec![F::ZERO; ncst * bs];
+        for (k, row) in rows.iter().enumerate() {
+            for i in 0..nw {
+                wb[i * bs + k] = row[i];
+            }
+            for i in 0..ncst {
+                cb[i * bs + k] = consts[i];
+            }
+        }
+        let base = guarded(|| g.eval_unfiltered_base_batch(EvaluationVarsBaseBatch::new(bs, &cb, &wb, &pih))).map_err(|e| format!("D={DD}: base-batch evaluator panicked: {e}"))?;
+        if base.len() != nc * bs {
+            return Err(format!("D={DD}: base-batch evaluator returns {} values for {bs} rows, {nc} constraints declared", base.len()));
+        }
+        for (k, row) in rows.iter().enumerate() {
+            let lw: Vec<E<DD>> = row.iter().map(|x| <E<DD> as FieldExtension<DD>>::from_basefield(*x)).collect();
+            let lc: Vec<E<DD>> = consts.iter().map(|x| <E<DD> as FieldExtension<DD>>::from_basefield(*x)).collect();
+            let ext = guarded(|| g.eval_unfiltered(EvaluationVars { local_constants: &lc, local_wires: &lw, public_inputs_hash: &pih })).map_err(|e| format!("D={DD}: extension evaluator panicked: {e}"))?;
+            if ext.len() != nc {
+                return Err(format!("D={DD}: extension evaluator returns {} values, {nc} constraints declared", ext.len()));
+            }
+            for i in 0..nc {
+                if ext[i] != <E<DD> as FieldExtension<DD>>::from_basefield(base[i * bs + k]) {
+                    return Err(format!("D={DD}: constraint {i} differs between the base-batch and the extension evaluator (batch {bs}, row {k})"));
+                }
+            }
+        }
+    }
+    Ok(())
+}
+
+fn other_degrees(case: &Case, rep: &mut Report) {
+    let (kind, p) = case.gate.clone().unwrap();
+    let mut r = Rng::new(case.seed ^ 0xd4d5);
+    let mut res: Vec<Result<(), String>> = Vec::new();
+    macro_rules! both {
+        ($mk4:expr, $mk5:expr) => {{
+            res.push(lockstep_other_degree::<4, _>(&$mk4, &mut r));
+            res.push(lockstep_other_degree::<5, _>(&$mk5, &mut r));
+        }};
+    }
+    match kind.as_str() {
+        "ArithmeticGate" => both!(ArithmeticGate { num_ops: p[0] }, ArithmeticGate { num_ops: p[0] }),
+        "ArithmeticExtensionGate" => both!(ArithmeticExtensionGate::<4> { num_ops: p[0] }, ArithmeticExtensionGate::<5> { num_ops: p[0] }),
+        "MulExtensionGate" => both!(MulExtensionGate::<4> { num_ops: p[0] }, MulExtensionGate::<5> { num_ops: p[0] }),
+        "ConstantGate" => both!(ConstantGate::new(p[0]), ConstantGate::new(p[0])),
+        "ReducingGate" => both!(ReducingGate::<4>::new(p[0]), ReducingGate::<5>::new(p[0])),
+        "ReducingExtensionGate" => both!(ReducingExtensionGate::<4>::new(p[0]), ReducingExtensionGate::<5>::new(p[0])),
+        "CosetInterpolationGate" => both!(CosetInterpolationGate::<F, 4>::new(p[0]), CosetInterpolationGate::<F, 5>::new(p[0])),
+        "ExponentiationGate" => both!(ExponentiationGate::<F, 4>::new(p[0]), ExponentiationGate::<F, 5>::new(p[0])),
+        "PoseidonGate" => both!(PoseidonGate::<F, 4>::new(), PoseidonGate::<F, 5>::new()),
+        "PoseidonMdsGate" => both!(PoseidonMdsGate::<F, 4>::new(), PoseidonMdsGate::<F, 5>::new()),
+        _ => return,
+    }
+    rep.fault("other_extension_degree_lockstep");
+    rep.case(hash_str(&kind) ^ hash_value(&json!(p)) ^ hash_str("other_degrees"), true);
+    for e in res.into_iter().filter_map(|x| x.err()) {
+        viol(rep, case, &kind, "evaluators_disagree_in_another_extension_degree", None, e);
+    }
+}
+
 fn exec_gate(case: &Case, rep: &mut Report) {
+    if case.only.is_none() {
+        other_degrees(case, rep);
+    }
     let (kind, p) = case.gate.clone().unwrap();
     let none = |_: &mut Vec<F>, _: &mut Rng| {};
     match kind.as_str() {
